@@ -12,3 +12,9 @@ pub open spec fn next_key_spec(k: Seq<i64>) -> Option<Seq<i64>> decreases k.len(
 // the i-th key of a range read starting at k (None once the key space is exhausted)
 pub open spec fn nth_key(k: Seq<i64>, i: nat) -> Option<Seq<i64>> decreases i {
     if i == 0 { Some(k) } else { match nth_key(k, (i - 1) as nat) { Some(p) => next_key_spec(p), None => None } } }
+// T-std: the derived Hash / Eq of ContentAddress ([u8; 32]) and Vec<i64> are structural and deterministic, so tuples of them obey
+// vstd's hash-key model (HashSet / HashMap behave like mathematical sets / maps over spec equality)
+pub broadcast axiom fn key_model_slot_ref() ensures #[trigger] vstd::std_specs::hash::obeys_key_model::<(&crate::essential_types::ContentAddress, &crate::essential_types::Key)>();
+pub broadcast axiom fn key_model_slot() ensures #[trigger] vstd::std_specs::hash::obeys_key_model::<(crate::essential_types::ContentAddress, crate::essential_types::Key)>();
+pub broadcast axiom fn key_model_key() ensures #[trigger] vstd::std_specs::hash::obeys_key_model::<crate::essential_types::Key>();
+pub broadcast axiom fn key_model_ca() ensures #[trigger] vstd::std_specs::hash::obeys_key_model::<crate::essential_types::ContentAddress>();
